@@ -4,6 +4,7 @@ import (
 	"fmt"
 	"go/token"
 	"go/types"
+	"sort"
 	"strings"
 
 	"golang.org/x/tools/go/ssa"
@@ -397,7 +398,12 @@ func (f *Frame) havocLoop(li *loopInfo, h *Heap, reach string) {
 			}
 		}
 	}
+	var bodyBlocks []*ssa.BasicBlock
 	for b := range li.body {
+		bodyBlocks = append(bodyBlocks, b)
+	}
+	sort.Slice(bodyBlocks, func(i, j int) bool { return bodyBlocks[i].Index < bodyBlocks[j].Index })
+	for _, b := range bodyBlocks {
 		for _, ins := range b.Instrs {
 			scanInstr(ins, 0, map[*ssa.Function]bool{}, true)
 		}
